@@ -32,6 +32,7 @@ type Scenario struct {
 	YieldSeg   bool // with FSYield: only calls on segment files, the directory table and files outside the database directory are scheduling points (index/meta files are touched under DB.mu only and never by Backup/FileSize readers)
 	Unclean    bool // the base image is left unclean (lock file present): the scenario's Open runs recovery
 	NoPrivateQuiet bool // disable the thread-private-mutex reduction (set automatically when its assumption breaks)
+	YieldDirOnly bool // with FSYield: only calls that read or change the directory table (open, create, remove, rename, readdir, stat, lock) are scheduling points. Data reads/writes of one thread step then happen atomically between that thread's neighbouring points; every order of such a step relative to the other threads' steps is still explored (files here are smaller than one copy buffer)
 	QuietPop   bool // reduction: iterator Next calls that only pop an already fetched item are not scheduling points
 	PostClose  []Op // operations main runs after the threads joined and after Close (use-after-close probes)
 }
@@ -56,7 +57,7 @@ func (sc *Scenario) JSON() map[string]interface{} {
 		ts = append(ts, w)
 	}
 	return map[string]interface{}{"name": sc.Name, "base": sc.Base, "cfg": sc.Cfg, "threads": ts, "fs_yield": sc.FSYield, "track_races": sc.TrackRaces,
-		"worker": sc.Worker, "tick_budget": sc.TickBudget, "bound": sc.Bound, "poison": sc.Poison, "quiet_pop": sc.QuietPop, "yield_seg": sc.YieldSeg, "no_private_quiet": sc.NoPrivateQuiet, "unclean": sc.Unclean, "post_close": WordString(sc.PostClose)}
+		"worker": sc.Worker, "tick_budget": sc.TickBudget, "bound": sc.Bound, "poison": sc.Poison, "quiet_pop": sc.QuietPop, "yield_seg": sc.YieldSeg, "yield_dir_only": sc.YieldDirOnly, "no_private_quiet": sc.NoPrivateQuiet, "unclean": sc.Unclean, "post_close": WordString(sc.PostClose)}
 }
 
 // Event is one completed operation of a thread.
@@ -349,6 +350,9 @@ func RunScenario(sc *Scenario, base *Base, prefix []int, keepTrace bool, sleep .
 				return
 			}
 			if sc.FSYield {
+				if sc.YieldDirOnly && obj != "dir" {
+					return
+				}
 				if sc.YieldSeg && obj != "dir" {
 					n := s.FS.NameOfObj(obj)
 					if strings.HasPrefix(n, DBPath+"/") && !strings.HasSuffix(n, refmodel.SegmentExt) {
